@@ -18,9 +18,24 @@ PROPS = {
         trusted_base=TB_COMMON + ["harness/h_c01.cpp + docmat.hpp: long-double oracle of the documented matrices (accuracy clause and failing-input search)"],
         assumptions=["floating-point rounding is not modelled by the R-model; the 1e-12/1e-5 clause is checked by the long-double harness on stratified inputs, not proved"],
     ),
+    "C03": dict(
+        tracer_units=GROUP_UNITS,
+        coq_targets=["Props/Properties_C03.vo"],
+        props_files=["Props/Properties_C03.v"],
+        cone=["Proofs/C03_*.v", "Props/Properties_C03.v"],
+        harnesses=[dict(name="h_c03")],
+        trusted_base=TB_COMMON + ["harness/h_c03.cpp + docmat.hpp: long-double oracle (conjugation by documented matrices, commutators, scaling-and-squaring matrix exponential)"],
+        assumptions=["Ad(exp a) = expm(ad a) is checked numerically (harness) and, in exact arithmetic, follows from C02/C03 theorems only in ODE form (see DESIGN.md); rounding not modelled"],
+    ),
 }
 
 MANIFEST_TEXT = {
+    "C03": dict(
+        technique="Coq proof over the regenerated model (ring/field identities against documented hat/matrix forms) + translator validation + long-double oracle harness",
+        text="Machine-checked theorems for SO2, SO3, SE2, SE3, C1, Galilei, SE_K_3<1..3>, for all elements/tangents: traced hat = documented algebra matrix, vee(hat a)=a and hat(vee A)=A on the algebra, linearity, hat(Ad_g a) mat(g) = mat(g) hat(a) (the conjugation definition; mat(g) invertible by C01), hat(ad_a b) = [hat a, hat b], lie_bracket = ad a * b (incl. the commutative short-cuts of the base class), antisymmetry, Jacobi, Ad(g1 g2)=Ad(g1)Ad(g2). Regenerated model: any changed entry/sign/block of Ad/ad/hat/vee breaks a ring obligation. Ad(exp a)=expm(ad a) by oracle harness.",
+        note="Trusted: Coq kernel; translator (validated each run); hand-transcribed documented forms; Galilei Ad is traced through the guarded hook (Scalar t instead of double t) and the double build is compared by the harness. Known finding C03-K1 (inherits C02-K1).",
+        design_ref="DESIGN.md section 5 C03",
+    ),
     "C01": dict(
         technique="Coq proof over a model regenerated from the headers (symbolic-scalar translator) + translator validation + long-double oracle harness",
         text="Machine-checked theorems (Coq 8.16) that for SO2, SO3, SE2, SE3, C1, Galilei, SE_K_3<1..3> the traced composition/inverse/identity/matrix/action code equals multiplication/inversion/application of the documented matrices for ALL valid coefficient vectors and on every path of the code (incl. both outcomes of SO3's sign canonicalisation and Eigen's quaternion-inverse branch). The model is regenerated from /repo's headers on every run; a changed coefficient, sign, index or block breaks a ring/field obligation. Accuracy clause (1e-12/1e-5) by long-double oracle on stratified inputs (not a theorem).",
@@ -34,8 +49,14 @@ MANIFEST_TEXT = {
 import glob as _glob, importlib as _importlib, os as _os
 for _f in sorted(_glob.glob(_os.path.join(_os.path.dirname(_os.path.abspath(__file__)), "props_C*.py"))):
     _name = _os.path.basename(_f)[:-3]
-    _m = _importlib.import_module(_name)
     _pid = _name.split("_", 1)[1]
-    PROPS[_pid] = _m.CFG
+    try:
+        _m = _importlib.import_module(_name)
+        _cfg = _m.CFG
+    except Exception as _e:  # a module still being written must not break the other checks
+        import sys as _sys
+        print(f"propdefs: skipping {_name}: {_e!r}", file=_sys.stderr)
+        continue
+    PROPS[_pid] = _cfg
     if hasattr(_m, "TEXT"):
         MANIFEST_TEXT[_pid] = _m.TEXT
